@@ -453,7 +453,10 @@ def yaml_text(spec):
                 if not vv:
                     lines[-1] += ' {}'
                 for v, d in vv.items():
-                    lines.append(f'      {v}: {float(d)!r}')
+                    if isinstance(d, (list, tuple)):
+                        lines.append(f'      {v}: {d[0]!r}{d[1]:+}j')      # complex value, as text
+                    else:
+                        lines.append(f'      {v}: {float(d)!r}')
         else:
             lines += [f"    - {spec['ops'][ok]['name']}" for ok in nt['ops']]
         lines.append('')
